@@ -1,11 +1,12 @@
 From Coq Require Import Extraction ExtrOcamlBasic List String.
-From AC Require Import Base.Sexp Model.Loader Model.Introspect.
+From AC Require Import Base.Sexp Model.Loader Model.Introspect Model.TopLevel.
 Import ListNotations.
 Local Open Scope string_scope.
 Definition dispatch (e : sexp) : sexp :=
   match e with
   | L (A "loader" :: r) => run_loader (L r)
   | L (A "introspect" :: r) => run_introspect (L r)
+  | L (A "toplevel" :: r) => run_toplevel (L r)
   | _ => sErr "C19: bad engine command"
   end.
 Extraction "model.ml" dispatch.
